@@ -145,8 +145,9 @@ def api_case(ts, tp, rows, mu, eps, space, std_out, cache):
     return dict(ok=True, post=arr, lik=float(lik), meta=meta)
 
 
-def case_replay(shape, muts, perm, grid, kind, rows, mu, eps, space, std_out, cache):
+def case_replay(shape, muts, perm, grid, kind, rows, mu, eps, space, std_out, cache, root_muts=0, stacked=0):
     return dict(kind="shape", shape=repr(shape), muts=list(map(int, muts)), perm=None if perm is None else list(map(int, perm)),
+                root_muts=int(root_muts), stacked=int(stacked),
                 grid=grid, prior_kind=kind, rows={str(u): [f2h(x) for x in r] for u, r in rows.items()},
                 mu=f2h(mu), eps=f2h(eps), space=space, std_out=bool(std_out), cache=bool(cache))
 
@@ -218,6 +219,7 @@ def enumerate_inputs(ctx, kmax, n_muts, res, stats):
     """All tree shapes with 2..kmax leaves x mutation patterns x grids x priors x spaces."""
     rng = ctx.rng(1)
     corr = []
+    tss_seen = stats.setdefault("_tss", [])
     for k in range(2, kmax + 1):
         for shape in dc.tree_shapes(k):
             kk, n, edges, height = dc.shape_edges(shape)
@@ -225,7 +227,12 @@ def enumerate_inputs(ctx, kmax, n_muts, res, stats):
             pats = mut_patterns(rng, len(edges), internal_edges, n_muts, 2)
             for muts in pats:
                 perm = None if rng.random() < 0.5 else [int(x) for x in rng.permutation(np.arange(kk, n))]
-                ts = dc.ts_from_shape(shape, muts, perm=perm)
+                # mutations above the root (on no edge) and sites with several mutations
+                root_muts = int(rng.choice([0, 1, 2]))
+                stacked = int(rng.choice([0, 0, 1]))
+                ts = dc.ts_from_shape(shape, muts, perm=perm, root_muts=root_muts, stacked=stacked)
+                stats["root_mutations"] = stats.get("root_mutations", 0) + int(root_muts + stacked > 0)
+                tss_seen.append(ts)
                 n_int = n - kk
                 gnames = [g for g in GRIDS if len(GRIDS[g]) ** n_int <= 700]
                 for gname in gnames:
@@ -239,7 +246,8 @@ def enumerate_inputs(ctx, kmax, n_muts, res, stats):
                     for space in (dc.LIN, dc.LOG):
                         std_out = bool(rng.random() < 0.5)
                         cache = bool(rng.random() < 0.5)
-                        replay = case_replay(shape, muts, perm, gname, kind, rows, mu, eps, space, std_out, cache)
+                        replay = case_replay(shape, muts, perm, gname, kind, rows, mu, eps, space, std_out, cache,
+                                             root_muts, stacked)
                         r = check_case(ts, tp, rows, mu, eps, space, std_out, cache, replay, res, stats)
                         stats["shapes"][k] = stats["shapes"].get(k, 0) + 1
                         stats["grids"][gname] = stats["grids"].get(gname, 0) + 1
@@ -247,7 +255,7 @@ def enumerate_inputs(ctx, kmax, n_muts, res, stats):
                         stats["spaces"][space] = stats["spaces"].get(space, 0) + 1
                         if r is None:
                             continue
-                        nontrivial = any(muts[i] > 0 for i in internal_edges)
+                        nontrivial = any(muts[i] > 0 for i in internal_edges) or (root_muts + stacked > 0)
                         if nontrivial:
                             res.nontrivial.add(common.canon_key([repr(shape), list(muts), gname, space, kind, eps, mu]))
                         res.sample(dict(shape=repr(shape), muts=list(muts), grid=tp, prior=kind, mu=mu, eps=eps,
@@ -265,8 +273,9 @@ def multitree_inputs(ctx, n_cases, stats):
     tries = 0
     while len(out) < n_cases and tries < 10 * n_cases:
         tries += 1
-        ts, info = gen.sim_ts(rng, n=int(rng.integers(2, 6)), trees=int(rng.choice([2, 3, 5])),
-                              muts_per_edge=float(rng.choice([0.3, 1, 2])))
+        ts, info = gen.gen_ts(rng, n=int(rng.integers(2, 6)), trees=int(rng.choice([2, 3, 5])),
+                              muts_per_edge=float(rng.choice([0.3, 1, 2])), rootmuts=0.5)
+        stats.setdefault("_tss", []).append(ts)
         if ts.num_trees < 2 or ts.num_mutations == 0:
             continue
         tp_n = int(rng.integers(3, 7))
@@ -298,7 +307,9 @@ def correspondence(recs, res, stats):
         cases.append((r, "float"))
         if r["space"] == dc.LIN and all(x == 1.0 for x in r["frac"]) and all(f == 1.0 for _, f in r["roots"]):
             cases.append((r, "rat"))
-    outs = dc.run_model(cases)
+    extra = {}
+    outs = dc.run_model(cases, dc.mutedges_text(stats.get("_tss", [])), extra)
+    stats["_mutedges_lines"] = extra
     same = tot = 0
     hyp = dict(groups_ok=0, single_tree=0, denoms_nonzero=0, outside_ok=0, nonneg_ok=0, nonneg_n=0,
                outside_finite=0, n=0)
@@ -358,6 +369,23 @@ def correspondence(recs, res, stats):
     stats["hypothesis_hit_rates"] = hyp
 
 
+def mutedges_stage(res, stats):
+    """B for `get_mut_edges`: implementation vs Lean `mutEdges` vs independent count, exactly, on every generated
+    tree sequence (root mutations, several mutations per site, multi-tree inputs with mutations above roots)."""
+    from .. import gen
+    tss = stats.pop("_tss", [])
+    lines = stats.pop("_mutedges_lines", None)
+    stats["mutedges_checked"] = len(tss)
+    stats["mutedges_with_null_edge"] = int(sum(1 for ts in tss if np.any(ts.mutations_edge == -1)))
+    for (i, impl, model, ind) in dc.mutedges_correspondence(tss, lines):
+        ts = tss[i]
+        res.corr_failures.append(Violation(
+            "mut-edges-differ",
+            f"get_mut_edges {impl} vs Lean mutEdges {model} vs counted from the trees {ind} "
+            f"({int(np.sum(ts.mutations_edge == -1))} mutation(s) above a root)",
+            dict(kind="mutedges", ts=gen.ts_to_jsonable(ts)), stage="B"))
+
+
 def new_stats():
     return dict(shapes={}, grids={}, prior_kinds={}, spaces={}, raised={}, degenerate_zero_normaliser=0,
                 multitree=0, model_runs={})
@@ -375,6 +403,7 @@ def run(ctx):
     recs += multitree_inputs(ctx, ctx.n(25, 300), stats)
     res.evaluations += stats["multitree"]
     correspondence(recs, res, stats)
+    mutedges_stage(res, stats)
     res.exhaustive = False
     res.rule = ("every rooted tree shape (binary and polytomies, every internal node >= 2 children) with 2..%d leaves x "
                 "mutation-count vectors (all-zero, one with a mutation on an internal-internal edge, random <= 2 per edge) x "
@@ -414,7 +443,7 @@ def search(ctx):
 
 def _rebuild(d):
     shape = eval(d["shape"], {"__builtins__": {}})  # nested tuples only
-    ts = dc.ts_from_shape(shape, d["muts"], perm=d["perm"])
+    ts = dc.ts_from_shape(shape, d["muts"], perm=d["perm"], root_muts=d.get("root_muts", 0), stacked=d.get("stacked", 0))
     rows = {int(u): np.array([common.h2f(x) for x in r]) for u, r in d["rows"].items()}
     return ts, GRIDS[d["grid"]], rows, common.h2f(d["mu"]), common.h2f(d["eps"])
 
@@ -423,6 +452,15 @@ def replay(ctx, payload):
     import tsdate  # noqa: F401
     d = payload["input"] if "input" in payload else payload.get("correspondence_input")
     res, stats = Result(), new_stats()
+    if d["kind"] == "mutedges":
+        from .. import gen
+        ts = gen.ts_from_jsonable(d["ts"])
+        bad = dc.mutedges_correspondence([ts])
+        from tsdate.discrete import Likelihoods
+        print("get_mut_edges          :", [int(x) for x in Likelihoods.get_mut_edges(ts)])
+        print("counted from the trees :", [int(x) for x in dc.mut_edges_independent(ts)])
+        print("Lean mutEdges          :", "agrees" if not bad else bad[0][2])
+        return not bad
     if d["kind"] == "shape":
         ts, tp, rows, mu, eps = _rebuild(d)
         print(ts.draw_text())
